@@ -144,9 +144,25 @@ def check_loop(ctx, cls, dw):
                 if not listy and dc:
                     W = ctx.prog.cls('Worker')
                     init = W.methods['__init__']
+                    def is_listy(e):
+                        return (isinstance(e, ast.Call) and is_name(e.func, 'list')) or isinstance(e, ast.List)
                     for st in walk_local(init.node):
                         if isinstance(st, ast.Assign) and any(is_self_attr(t, attr) for t in st.targets):
-                            listy = isinstance(st.value, ast.Call) and is_name(st.value.func, 'list')
+                            listy = is_listy(st.value)
+                    # ... but the constructor is not the only writer: load-time patches inject the attribute into workers created in a context
+                    # ({'_args': <expr>} handed to the unpickler) - every injected value must be list-typed as well
+                    for f2 in ctx.prog.funcs.values():
+                        for d in ast.walk(f2.node):
+                            if isinstance(d, ast.Dict):
+                                for k, v2 in zip(d.keys, d.values):
+                                    if isinstance(k, ast.Constant) and k.value == attr:
+                                        src_ok = is_listy(v2)
+                                        if is_self_attr(v2) and f2.cls is not None:
+                                            stores = [st for m in f2.cls.methods.values() for st in walk_local(m.node)
+                                                      if isinstance(st, ast.Assign) and any(is_self_attr(t, v2.attr) for t in st.targets)]
+                                            src_ok = bool(stores) and all(is_listy(st.value) for st in stores)
+                                        if not src_ok:
+                                            listy = False
                 ctx.check('R2', f'{F}: the target of the slice merge is list-typed', listy, F, f'merge-target-not-list:{norm(v)}',
                           f'the positional defaults `{norm(v)}` keep the type the user passed: with a tuple the slice assignment raises TypeError on the first enqueue',
                           where=loc(dw, defs_all[0]))
